@@ -1487,6 +1487,11 @@ pub mod verif_api {
             }
             n
         }
+        /// Forward to the real `PathSet::next_maintain`: time until the worker loop's next
+        /// maintenance tick.
+        pub fn next_maintain_in(&self, now: SystemTime) -> Duration {
+            self.set.next_maintain(now)
+        }
         pub fn next_maintain_at(&self) -> SystemTime {
             std::cmp::min(self.set.internal.next_refetch, self.set.internal.next_idle_check)
         }
